@@ -91,6 +91,19 @@ def is_diagonal_matrix(tensor: ndarray):
     test = tensor.reshape(-1)[:-1].reshape(i-1, j+1)
     return ~np.any(test[:, 1:])
 
+def get_number_of_steps(
+        start_time: float,
+        end_time: float,
+        dt: float) -> int:
+    """
+    Number of whole time steps of length `dt` that fit between `start_time`
+    and `end_time`. An `end_time` that is a multiple of `dt` away from
+    `start_time` up to floating point rounding (such as 0.3 with dt=0.1, for
+    which 0.3/0.1 = 2.9999999999999996) is counted as lying on the time grid.
+    """
+    steps = (end_time - start_time) / dt
+    return int(np.floor(steps + 1.0e-9 * max(1.0, abs(steps))))
+
 # -- input parsing -----------------------------------------------------------
 
 def check_convert(
